@@ -52,7 +52,16 @@ pub async fn dispatch_command<W: AsyncWrite + Unpin>(
             .await
         }
         RememberQuery { .. } => {
-            remember::handle(cmd, shard_manager, registry, writer, renderer).await
+            remember::handle_as(
+                cmd,
+                shard_manager,
+                registry,
+                auth_manager,
+                user_id,
+                writer,
+                renderer,
+            )
+            .await
         }
         Query { .. } => {
             QueryCommandHandler::new(
